@@ -81,6 +81,7 @@ GROUP3 = ["atoi", "atou", "bytes"]       # number parsing; "bytes" = the per-byt
 GROUP4 = ["repeat", "pad", "split", "fromtill", "masked", "binary", "seq", "chain"]     # life cycle: allocation pairing on every operation and on sequences
 GROUP6 = ["alias"]                       # arguments pointing into the object's own buffer
 ALS_ARITY = {":asgp": 1, ":asgs": 0, ":ctor": 1, ":appp": 1, ":apps": 0, ":repl": 2, ":cmpp": 1, ":cmps": 0, ":sstr": 2, ":scmp": 2}
+ALS_MAXLEN = 1500
 ALS_MUT = (":asgp", ":asgs", ":ctor", ":appp", ":apps", ":repl")
 GROUP5 = ["coll"]                        # the collection as an object with a history; split with delimiters of every length
 COL_ARITY = {":sp": 2, ":al": 1, ":put": 2, ":sz": 0, ":get": 1, ":snap": 0}
@@ -829,6 +830,8 @@ def random_als(rng, a, maxops):
             w = ":asgp"
         n = ALS_ARITY[w]
         o = [w] + ["%x" % k() for _ in range(n)]
+        if len(als_step(s, o)) > ALS_MAXLEN:     # replace(short suffix, long suffix) multiplies the length: keep the model's quadratic lists small
+            o = [":asgp", "%x" % min(1, L)]
         ops.append(" ".join(o)); s = als_step(s, o)
     return als(a, ops)
 
@@ -846,8 +849,10 @@ def gen_alias(tier, rng):
     for L in ((31, 64, 100) if quick else (1, 30, 31, 32, 33, 63, 64, 65, 99, 100, 101, 127, 128, 129, 255, 256, 257)):
         a = nstr(rng, L, alpha=(0x61, 0x62, 0x3a))
         for k in sorted(set([0, 1, 7 % (L + 1), L // 2, L - 1, L])):
-            out += [als(a, [":asgp %x" % k, ":cmps"]), als(a, [":ctor %x" % k]), als(a, [":appp %x" % k, ":asgp %x" % k]), als(a, [":repl %x %x" % (k, L - k)]),
+            out += [als(a, [":asgp %x" % k, ":cmps"]), als(a, [":ctor %x" % k]), als(a, [":appp %x" % k, ":asgp %x" % k]),
                     als(a, [":cmpp %x" % k, ":sstr %x %x" % (k, L - k), ":scmp %x %x" % (L - k, k)])]
+            if len(als_step(a, [":repl", "%x" % k, "%x" % (L - k)])) <= ALS_MAXLEN:
+                out.append(als(a, [":repl %x %x" % (k, L - k)]))
         out.append(als(a, [":apps", ":apps", ":asgs", ":asgp %x" % (2 * L)]))
     # (2) second use of the same object: every ordered pair of mutators (all pointers) on three texts, then an observer
     for a in ((b"ab", b"aba", b"aab") if quick else (b"", b"a", b"ab", b"aa", b"aba", b"aab", b"abb", b"aaa")):
